@@ -136,6 +136,33 @@ Theorem parent_based_span_inherits : forall (d : sampler) (e : span_ctx) (g : by
 Proof. exact Proofs.parent_based_span_inherits. Qed.
 Print Assumptions parent_based_span_inherits.
 
+(* --- the parent arrives through the contexts (options.parent a SpanContext / a context::Context, the current context):
+       a valid span held by the given context is the parent whether or not the context is marked is_root_span *)
+Theorem context_span_is_parent_regardless_of_marker : forall (active c : span_ctx) (marker : bool),
+  ctx_valid c = true -> tracer_parent active (PaContext (Some c) marker) = c.
+Proof. exact Proofs.context_span_is_parent_regardless_of_marker. Qed.
+Print Assumptions context_span_is_parent_regardless_of_marker.
+
+Theorem tracer_parent_is_documented_parent : forall (active : span_ctx) (a : parent_arg),
+  documented_parent active a =
+  (if ctx_valid (tracer_parent active a) then Some (tracer_parent active a) else None).
+Proof. exact Proofs.tracer_parent_is_documented_parent. Qed.
+Print Assumptions tracer_parent_is_documented_parent.
+
+Theorem parent_based_span_cx_inherits : forall (d : sampler) (cs : option span_ctx) (a : parent_arg) (g : bytes) (rnd : bool) (x : extra) (p : span_ctx),
+  documented_parent (span_in cs) a = Some p ->
+  let st := start_span_cx (SParent d) cs a g rnd x in
+  st_tid st = c_tid p /\ st_flags st = (if ctx_sampled p then 1 else 0) /\ st_ts st = c_ts p /\
+  root_sampler_calls (SParent d) cs a = 0.
+Proof. exact Proofs.parent_based_span_cx_inherits. Qed.
+Print Assumptions parent_based_span_cx_inherits.
+
+Theorem root_sampler_only_without_parent : forall (d : sampler) (cs : option span_ctx) (a : parent_arg) (g : bytes) (rnd : bool) (x : extra),
+  documented_parent (span_in cs) a = None ->
+  root_sampler_calls (SParent d) cs a = 1 /\ st_tid (start_span_cx (SParent d) cs a g rnd x) = g.
+Proof. exact Proofs.root_sampler_only_without_parent. Qed.
+Print Assumptions root_sampler_only_without_parent.
+
 (* --- the SPEC checkers that ./check runs on the implementation's observations accept every answer of the model *)
 Theorem model_meets_spec : forall (l : list tok) (c : case), parse_case l = Some c -> run_spec l (run_model l) = [].
 Proof. exact Proofs.model_meets_spec. Qed.
